@@ -4,7 +4,7 @@
 import os, re
 from vlib import Obl, Prog, REPO, borrow
 
-UNITS = ["substdio.c", "triggerpull.c", "open_excl.c", "open_write.c", "ndelay.c", "fmtqfn.c", "fmt_ulong.c", "fmt_str.c",
+UNITS = ["substdio.c", "triggerpull.c", "open_excl.c", "open_write.c", "open_read.c", "open_append.c", "open_trunc.c", "ndelay.c", "fmtqfn.c", "fmt_ulong.c", "fmt_str.c",
          "fmt_uint.c", "fmt_uint0.c", "date822fmt.c", "datetime.c", "auto_split.c", "auto_qmail.c",
          "auto_usera.c", "auto_userd.c", "auto_users.c"]
 SYS = ["chdir", "umask", "getpid", "getuid", "time", "alarm", "open", "fstat", "link", "unlink", "ftruncate",
